@@ -415,7 +415,7 @@ def kernel_codes(ctx, name, terms):
 def run_kernel(ctx, items, results):
     """model vs client inside Coq -> ({item index: component codes}, failing item indices, evaluated indices)"""
     # quick tier: every corpus report and every fourth other report (the tokenisation oracle sees all of them)
-    sel = [i for i, it in enumerate(items) if not ctx.quick or it['origin'] == 'corpus' or i % 4 == 0]
+    sel = [i for i, it in enumerate(items) if not ctx.quick or it['origin'] in ('corpus', 'history') or i % 4 == 0]
     terms = [full_term(items[i], results[i], with_csv=(k % 3 == 0 or items[i]['origin'] == 'corpus')) for k, i in enumerate(sel)]
 
     def body(lo, hi):
@@ -492,6 +492,36 @@ def hip_ra_reports(ctx):
     ctx.count('hip-ra-reports (oracle only)', evaluations=n, files=len(files), variants=len(texts) - len(files))
 
 
+def history(ctx, items, results):
+    """one client process, one path, the report file re-written between parses (what GeophiresXClient does when an input
+    is edited and run again): every parse must be the parse of the text the file holds THEN, as_csv included.
+    -> extra (item, result) pairs for the kernel check: the model is a function of the text (C10_parse_is_function_of_text)"""
+    has = lambda i, k: results[i]['result'] is not None and k in results[i]['result']
+    pool = [i for i, it in enumerate(items) if it['origin'] in ('run', 'corpus') and has(i, R.REV)]
+    carbon = [i for i in pool if has(i, 'CARBON REVENUE PROFILE')]
+    plain = [i for i in pool if not has(i, 'CARBON REVENUE PROFILE')]
+    seq = [i for pair in zip(carbon, plain) for i in pair][:ctx.n(12, 60)] or pool[:ctx.n(12, 60)]
+    seq = seq + seq[:2]                                   # ... and back to the first reports
+    hist = R.history_parse(ctx, [items[i]['text'] for i in seq])
+    extra = []
+    show = lambda r, c: str((r['result'] or {}).get(c, r['raised']))[:300]
+    for k, (i, h) in enumerate(zip(seq, hist)):
+        fresh = results[i]
+        same = (h['result'], h['csv'], h['raised']) == (fresh['result'], fresh['csv'], fresh['raised'])
+        if not same:
+            comp = next((c for c in (fresh['result'] or {}) if (h['result'] or {}).get(c) != fresh['result'].get(c)), 'csv/raised')
+            prev = items[seq[k - 1]]['text'] if k else None
+            ctx.violate('property', f'history:stale:{comp}', f'parsing a report file that was re-written in the same process does not give the parse of its '
+                        f'new text: {comp} differs from a fresh parse (operation {k} of the history; before it the path held {items[seq[k - 1]]["id"] if k else "nothing"}) '
+                        f'[{items[i]["id"]}]', inp={'id': items[i]['id'], 'text': items[i]['text'], 'history': [prev, items[i]['text']]},
+                        expected=show(fresh, comp), observed=show(h, comp))
+        if k % 3 == 1 and len(extra) < 6:
+            extra.append((dict(items[i], id=f'history{k}/' + items[i]['id'], origin='history'), h))
+    ctx.count('history (one process, one path)', evaluations=len(seq), nontrivial_keys=[('rewrite', has(i, 'CARBON REVENUE PROFILE'), has(j, 'CARBON REVENUE PROFILE'))
+                                                                                          for i, j in zip(seq, seq[1:])], parses=len(seq))
+    return extra
+
+
 def correspondence(ctx, proofs_ok=True):
     import time
     t0 = time.time()
@@ -553,6 +583,9 @@ def correspondence(ctx, proofs_ok=True):
     for it in items[:2]:
         ctx.sample('reports', {'id': it['id'], 'chars': len(it['text'])})
     lap('tokenisation oracle + json')
+    extra = history(ctx, items, results)
+    items, results = items + [e[0] for e in extra], results + [e[1] for e in extra]
+    lap('history')
     # model vs client, inside Coq
     codes, failing, sel = run_kernel(ctx, items, results)
     lap('kernel shards')
@@ -609,6 +642,20 @@ def search(ctx):
 def replay(ctx, data):
     fields, heads, names = c10_tables.client_tables()
     inp = data['input']
+    if inp.get('history'):
+        prev, cur = inp['history']
+        hist = R.history_parse(ctx, ([prev] if prev is not None else []) + [cur])[-1]
+        fresh = R.parse_many(ctx, [cur], 0, workers=1)[0]
+        diff = [c for c in (fresh['result'] or {}) if (hist['result'] or {}).get(c) != fresh['result'].get(c)] + \
+               (['as_csv'] if hist['csv'] != fresh['csv'] else []) + (['raising'] if hist['raised'] != fresh['raised'] else [])
+        print('one process: write report A to P, parse P, write report B to P, parse P; compared with a parse of B alone')
+        for c in diff:
+            rows = lambda r: (lambda v: str(v[1:3] if isinstance(v, list) else v)[:200])((r['result'] or {}).get(c))
+            print(f'  differs: {c}\n     second parse of P: {rows(hist)}\n     parse of B alone : {rows(fresh)}')
+        codes = kernel_codes(ctx, 'replay', [full_term({'text': cur}, hist)])[0]
+        print('model (a function of the text of B) vs second parse, component codes:', codes)
+        print('property', 'VIOLATED' if diff or codes else 'holds', 'on this input')
+        return 1 if diff or codes else 0
     if inp.get('hip'):
         from hip_ra import HipRaResult
         p = ctx.scratch / 'hip.out'
